@@ -8,6 +8,7 @@ import (
 	"testing"
 
 	"github.com/hashicorp/hcl-lang/lang"
+	"github.com/hashicorp/hcl/v2"
 	"github.com/hashicorp/hcl-lang/reference"
 	"github.com/hashicorp/hcl/v2/hclsyntax"
 	"github.com/zclconf/go-cty/cty"
@@ -240,8 +241,41 @@ func checkC09(c C09Case) Result {
 				}
 			}
 			collectExtents(body)
+			// the items of object / map constructors: key extent and the end of the value
+			type consItem struct{ ks, ke, ve int }
+			var consItems []consItem
+			_ = hclsyntax.VisitAll(body, func(n hclsyntax.Node) hcl.Diagnostics {
+				if oc, ok := n.(*hclsyntax.ObjectConsExpr); ok {
+					for _, it := range oc.Items {
+						kr, vr := it.KeyExpr.Range(), it.ValueExpr.Range()
+						if kr.End.Byte > kr.Start.Byte && vr.End.Byte >= kr.End.Byte {
+							consItems = append(consItems, consItem{kr.Start.Byte, kr.End.Byte, vr.End.Byte})
+						}
+					}
+				}
+				return nil
+			})
+			checkItemExtent := func(t reference.Target) {
+				if t.DefRangePtr == nil || t.RangePtr == nil || t.RangePtr.Filename != f.Name || t.DefRangePtr.Filename != f.Name {
+					return
+				}
+				for _, it := range consItems {
+					// a target that ends with an item's value and whose header lies within that item's key
+					// is that item: its extent starts with the key as written (quotes included) and its
+					// header is the whole key
+					if t.RangePtr.End.Byte == it.ve && t.DefRangePtr.Start.Byte >= it.ks && t.DefRangePtr.End.Byte <= it.ke && t.RangePtr.Start.Byte >= it.ks && t.RangePtr.Start.Byte <= it.ke {
+						r.Class("constructor-item-target")
+						if t.RangePtr.Start.Byte != it.ks || t.DefRangePtr.Start.Byte != it.ks || t.DefRangePtr.End.Byte != it.ke {
+							r.Fail("item-target-not-own-extent", "target %s: it is the constructor item whose key is written at %d-%d (value ends at %d), but its definition range is %d-%d and its range starts at %d\n%s",
+								tgtString(t), it.ks, it.ke, it.ve, t.DefRangePtr.Start.Byte, t.DefRangePtr.End.Byte, t.RangePtr.Start.Byte, clip(f.Text, 1200))
+						}
+						return
+					}
+				}
+			}
 			var checkExtent func(t reference.Target, depth int, firstOfGroup bool)
 			checkExtent = func(t reference.Target, depth int, firstOfGroup bool) {
+				checkItemExtent(t)
 				if t.DefRangePtr != nil && t.RangePtr != nil && t.RangePtr.Filename == f.Name {
 					if want, ok := extents[[2]int{t.DefRangePtr.Start.Byte, t.DefRangePtr.End.Byte}]; ok {
 						if want != [2]int{t.RangePtr.Start.Byte, t.RangePtr.End.Byte} {
